@@ -919,3 +919,244 @@ Proof.
     + intros [(n & Hn & In_)|(n & Hn & In_)]; exists n; (split; [apply Mu|exact In_]); [now left|right].
       apply Mk. now right.
 Qed.
+
+(* ================================================================ 7. remove() *)
+Definition remove_spec_b : Prop :=
+  forall d e, SetInv d -> wf_elem e ->
+    exists d', set_remove d e = Ok d' /\ SetInv d' /\ forall ver x, den d' ver x <-> den d ver x /\ ~ in_elem e ver x.
+
+(* `other in self` for two IPNetwork objects = interval inclusion within one family *)
+Lemma net_in_net_iff other self : wf_net other -> wf_net self ->
+  (net_in_net other self = true <-> nver self = nver other /\ nf self <= nf other /\ nl other <= nl self).
+Proof.
+  intros Wo Ws.
+  destruct (wf_view other Wo) as (_ & Po & PSo & Do & _ & Lo & _ & Vo).
+  destruct (wf_view self Ws) as (_ & Ps & PSs & Ds & _ & Ls & _ & Vs).
+  unfold net_in_net. fold (nw self). destruct (Z.eqb_spec (nver self) (nver other)) as [Ev|Ev]; cbn [negb].
+  2:{ split; [discriminate|]. intros (E & _). contradiction. }
+  assert (Ew: nw other = nw self) by (unfold nw; now rewrite Ev).
+  rewrite andb_true_iff, Z.eqb_eq, Z.leb_le, shiftr_eq_iff by lia.
+  fold (nw self) in *. assert (EF: floor2 (nval self) (nw self - nplen self) = nf self) by (symmetry; apply nf_eq, Ws).
+  rewrite EF. split.
+  - intros (E & Hp). split; [exact Ev|].
+    pose proof (floor2_bounds (nval other) (nw self - nplen self) ltac:(lia)) as FB. rewrite E in FB. fold (nS self) in FB.
+    assert (Hdiv: (nS other | nS self)) by (unfold nS; rewrite Ew; apply pow2_divide; lia).
+    pose proof (nested_of_overlap (nS other) (nS self) (nf self) (nf other) PSo Hdiv PSs Ds Do ltac:(lia) ltac:(lia)). lia.
+  - intros (_ & A & B). assert (Hp: nplen self <= nplen other).
+    { assert (nS other <= nS self) by lia. unfold nS in H. rewrite Ew in H.
+      destruct (Z_le_gt_dec (nplen self) (nplen other)); [assumption|exfalso].
+      pose proof (pow2_lt (nw self - nplen self) (nw self - nplen other) ltac:(lia)). lia. }
+    split; [|exact Hp]. symmetry. apply floor2_unique; [lia|exact Ds|]. fold (nS self). lia.
+Qed.
+
+Lemma find_container_some d addr c : find_container d addr = Some c -> In c d /\ net_in_net addr c = true.
+Proof.
+  induction d as [|x r IH]; cbn [find_container]; [discriminate|].
+  destruct (net_in_net addr x) eqn:E.
+  - intros H. inversion H; subst. split; [now left|exact E].
+  - intros H. destruct (IH H). split; [now right|assumption].
+Qed.
+
+Lemma find_container_none d addr : find_container d addr = None -> forall c, In c d -> net_in_net addr c = false.
+Proof.
+  induction d as [|x r IH]; cbn [find_container]; [intros _ c []|].
+  destruct (net_in_net addr x) eqn:E; [discriminate|]. intros H c [<-|Hc]; [exact E|apply IH; assumption].
+Qed.
+
+(* lemma L: an aligned block covered by a canonical dict lies inside one stored key *)
+Lemma cover_one_key d a : SetInv' d -> wfh a -> (forall z, in_net a (nver a) z -> den d (nver a) z) ->
+  exists B, In B d /\ nver B = nver a /\ nf B <= nf a /\ nl a <= nl B.
+Proof.
+  intros ((Fd & _) & _ & NS) Ha Cov. rewrite Forall_forall in Fd.
+  pose proof Ha as (Wa & _). destruct (wfh_view a Ha) as (_ & Pa & PSa & _ & _ & La & _).
+  set (v := nver a) in *. set (w := width v).
+  assert (Hw: 0 <= w) by apply width_nonneg.
+  assert (InF: forall b, In b (fam_blks v d) -> exists n, In n d /\ nver n = v /\ b = net_blk n).
+  { intros b Hb. unfold fam_blks, fam in Hb. apply in_map_iff in Hb. destruct Hb as (n & <- & Hn).
+    apply filter_In in Hn. destruct Hn as (Hn & E). exists n. split; [exact Hn|split; [lia|reflexivity]]. }
+  destruct (L_cover w Hw (fam_blks v d)) with (h := Z.to_nat (w - nplen a)) (X := net_blk a) as (B & HB & SB).
+  - intros b Hb. destruct (InF b Hb) as (n & Hn & Ev & ->). unfold w. rewrite <- Ev. apply net_blk_aligned, Fd, Hn.
+  - intros b1 b2 H1 H2 Sb. destruct (InF b1 H1) as (n1 & Hn1 & Ev1 & ->). destruct (InF b2 H2) as (n2 & Hn2 & Ev2 & ->).
+    apply (NS n1 n2 Hn1 Hn2). split; [congruence|]. rewrite Ev1. exact Sb.
+  - apply net_blk_aligned. exact Wa.
+  - cbn [net_blk bp]. unfold nw in Pa. fold v in Pa. fold w in Pa. lia.
+  - intros x Hx. destruct (Cov x) as (n & Hn & I).
+    { apply in_net_inb; [exact Wa|]. split; [reflexivity|exact Hx]. }
+    pose proof I as (Ev & _). exists (net_blk n). split.
+    + rewrite <- Ev. apply in_fam_blks, Hn.
+    + apply in_net_inb in I; [|apply Fd, Hn]. destruct I as (_ & I). rewrite Ev in I. exact I.
+  - destruct (InF B HB) as (n & Hn & Ev & ->). exists n. split; [exact Hn|split; [exact Ev|]].
+    destruct (wfh_view n (Fd n Hn)) as (_ & _ & PSn & _ & _ & Ln & _).
+    assert (ESa: 2 ^ (w - nplen a) = nS a) by reflexivity.
+    assert (I1: inb w (net_blk n) (nf a)) by (apply SB; unfold inb, net_blk, bsize; cbn [bv bp]; rewrite ESa; lia).
+    assert (I2: inb w (net_blk n) (nl a)) by (apply SB; unfold inb, net_blk, bsize; cbn [bv bp]; rewrite ESa; lia).
+    unfold inb, net_blk, bsize in I1, I2; cbn [bv bp] in I1, I2.
+    assert (ES: 2 ^ (w - nplen n) = nS n) by (unfold nS, nw, w; now rewrite Ev). rewrite ES in *. lia.
+Qed.
+
+(* a canonical list of (value, prefixlen) blocks of one family, rebuilt as IPNetwork objects *)
+Lemma blks_nets w ver l : valid_ver ver = true -> width ver = w -> canon w (blks_of l) ->
+  (forall x, covered w (blks_of l) x -> 0 <= x < 2 ^ w) ->
+  let R := map (net_of_cblk ver) l in
+  Forall wfh R /\ PDisj R /\ NoSib R /\ forall ver' x, den R ver' x <-> ver' = ver /\ covered w (blks_of l) x.
+Proof.
+  intros Hv Ew (A & SS & NS) Rng R.
+  assert (El: forall cb, In cb l -> let r := net_of_cblk ver cb in
+            wfh r /\ nf r = fst cb /\ nl r = fst cb + 2 ^ (w - snd cb) - 1 /\ net_blk r = blk_of cb).
+  { intros cb Hcb r. assert (Hb: In (blk_of cb) (blks_of l)) by (apply in_map; exact Hcb).
+    pose proof (A _ Hb) as Al. pose proof (aligned_pos w _ Al) as PS.
+    destruct Al as (Hp & H0 & Dv). unfold bsize, blk_of in *; cbn [bv bp] in *.
+    assert (Hi: 0 <= fst cb + 2 ^ (w - snd cb) - 1 < 2 ^ w).
+    { apply Rng. exists (blk_of cb). split; [exact Hb|]. unfold inb, bsize, blk_of; cbn [bv bp]. lia. }
+    subst w. destruct (mk_wfh ver (fst cb) (snd cb) Hv Hp H0 Dv ltac:(lia)) as (W & F & L).
+    fold (net_of_cblk ver cb) in W, F, L. fold r in W, F, L.
+    split; [exact W|]. split; [exact F|]. split; [exact L|]. unfold net_blk. rewrite F. reflexivity. }
+  assert (InR: forall r, In r R -> exists cb, In cb l /\ r = net_of_cblk ver cb).
+  { intros r Hr. apply in_map_iff in Hr. destruct Hr as (cb & <- & Hcb). eauto. }
+  assert (Inb: forall cb ver' z, In cb l -> (in_net (net_of_cblk ver cb) ver' z <-> ver' = ver /\ inb w (blk_of cb) z)).
+  { intros cb ver' z Hcb. destruct (El cb Hcb) as (_ & F & L & _). unfold in_net. rewrite F, L.
+    change (nver (net_of_cblk ver cb)) with ver. unfold inb, bsize, blk_of; cbn [bv bp].
+    split; (intros (E & I); split; [now symmetry|lia]). }
+  split; [|split; [|split]].
+  - rewrite Forall_forall. intros r Hr. destruct (InR r Hr) as (cb & Hcb & ->). apply (El cb Hcb).
+  - intros r1 r2 H1 H2 N (ver' & z & I1 & I2).
+    destruct (InR r1 H1) as (c1 & Hc1 & ->). destruct (InR r2 H2) as (c2 & Hc2 & ->).
+    apply Inb in I1; [|exact Hc1]. apply Inb in I2; [|exact Hc2].
+    pose proof (sorted_disj w _ A SS (blk_of c1) (blk_of c2) z (in_map _ _ _ Hc1) (in_map _ _ _ Hc2) (proj2 I1) (proj2 I2)) as E.
+    apply N. f_equal. destruct c1, c2. unfold blk_of in E; cbn [fst snd] in E. inversion E. reflexivity.
+  - intros r1 r2 H1 H2 (Ev & Sb).
+    destruct (InR r1 H1) as (c1 & Hc1 & ->). destruct (InR r2 H2) as (c2 & Hc2 & ->).
+    destruct (El c1 Hc1) as (_ & _ & _ & B1). destruct (El c2 Hc2) as (_ & _ & _ & B2).
+    cbv zeta in B1, B2. rewrite B1, B2 in Sb. change (nver (net_of_cblk ver c1)) with ver in Sb. rewrite Ew in Sb.
+    apply (NS (blk_of c1) (blk_of c2)); [apply in_map, Hc1|apply in_map, Hc2|exact Sb].
+  - intros ver' x. unfold den, covered. split.
+    + intros (r & Hr & I). destruct (InR r Hr) as (cb & Hcb & ->). apply Inb in I; [|exact Hcb].
+      split; [tauto|]. exists (blk_of cb). split; [apply in_map, Hcb|tauto].
+    + intros (-> & b & Hb & I). apply in_map_iff in Hb. destruct Hb as (cb & <- & Hcb).
+      exists (net_of_cblk ver cb). split; [apply in_map, Hcb|]. apply Inb; [exact Hcb|tauto].
+Qed.
+
+(* the sibling of a block lying strictly inside c lies inside c as well *)
+Lemma sib_inside x y c : wfh x -> wfh y -> wfh c -> siblings x y \/ siblings y x ->
+  nver c = nver x -> nf c <= nf x -> nl x <= nl c -> nplen c < nplen x -> overlap y c.
+Proof.
+  intros Hx Hy Hc Sb Ev A B Hp.
+  destruct (wfh_view x Hx) as (_ & Px & PSx & Dx & _ & Lx & _).
+  destruct (wfh_view y Hy) as (_ & Py & PSy & Dy & _ & Ly & _).
+  destruct (wfh_view c Hc) as (_ & Pc & PSc & Dc & _ & Lc & _).
+  assert (Ew: nw c = nw x) by (unfold nw; now rewrite Ev).
+  assert (D2: (2 * nS x | nS c)).
+  { unfold nS. rewrite Ew. rewrite <- pow2_succ by lia. apply pow2_divide. lia. }
+  apply overlap_iff; [exact Hy|exact Hc|].
+  destruct Sb as [Sb|Sb]; destruct (proj1 (siblings_iff _ _) Sb) as (E1 & E2 & E3 & E4).
+  - assert (ES: nS y = nS x) by (unfold nS, nw; now rewrite <- E1, <- E2).
+    split; [congruence|].
+    pose proof (aligned_contains_chunk (nf c) (nS c) (nf x) (2 * nS x) ltac:(lia) D2 Dc E4 ltac:(lia)). lia.
+  - assert (ES: nS y = nS x) by (unfold nS, nw; now rewrite E1, E2). rewrite ES in *.
+    split; [congruence|].
+    assert (D3: (2 * nS x | nf c)) by (eapply Z.divide_trans; [exact D2|exact Dc]).
+    pose proof (mult_lower (2 * nS x) (nf c) (nf y) (nS x) ltac:(lia) D3 E4 ltac:(lia) ltac:(lia)). lia.
+Qed.
+
+Lemma remove_one_spec d addr : SetInv d -> wf_net addr ->
+  exists d', remove_one d addr = Ok d' /\ SetInv d' /\
+    forall ver x, den d' ver x <-> den d ver x /\ ~ in_net addr ver x.
+Proof.
+  intros I Wad. destruct (ncidr_facts addr Wad) as (Wa & Va & Pa & Fa & La).
+  destruct (wf_view addr Wad) as (_ & Pad & PSad & _ & _ & Lad & _).
+  destruct (compact_single_spec d (ncidr addr) I Wa) as (d1 & E1 & I1 & D1).
+  unfold remove_one. cbv zeta. rewrite E1. cbn [bind].
+  apply b_SetInv_iff in I1. pose proof I1 as (W1 & P1 & S1). pose proof W1 as (F1 & _). rewrite Forall_forall in F1.
+  destruct (cover_one_key d1 (ncidr addr) I1 Wa) as (B & HB & EvB & AB & BB).
+  { intros z Hz. apply D1. now right. }
+  rewrite Va, Fa in *. rewrite La in BB.
+  destruct (find_container d1 addr) as [c|] eqn:FC.
+  2:{ exfalso. pose proof (find_container_none d1 addr FC B HB) as N.
+      assert (T: net_in_net addr B = true) by (apply net_in_net_iff; [exact Wad|apply F1, HB|tauto]).
+      rewrite T in N. discriminate. }
+  destruct (find_container_some d1 addr c FC) as (Ic & Nc).
+  pose proof (F1 c Ic) as Wc. pose proof Wc as (Wc' & _).
+  apply net_in_net_iff in Nc; [|exact Wad|exact Wc']. destruct Nc as (Ev & Ac & Bc).
+  destruct (wfh_view c Wc) as (Hvc & Pc & PSc & Dc & F0c & Lc & Hic & Vc).
+  set (w := width (nver c)) in *. assert (Hw: 0 <= w) by apply width_nonneg.
+  assert (Ew: width (nver addr) = w) by (unfold w; now rewrite Ev).
+  assert (WT: wf_cblk w (cblk_of_net c)).
+  { destruct Wc' as (_ & Hval & Hp). unfold wf_cblk, cblk_of_net; cbn [fst snd]. fold w in Hval, Hp. split; lia. }
+  assert (WE: wf_cblk w (cblk_of_net addr)).
+  { destruct Wad as (_ & Hval & Hp). unfold wf_cblk, cblk_of_net; cbn [fst snd]. rewrite Ew in Hval, Hp. split; lia. }
+  assert (FT: first_of w (cblk_of_net c) = nf c).
+  { unfold first_of, cblk_of_net; cbn [fst snd]. rewrite (nf_eq c Wc'). reflexivity. }
+  assert (LT: last_of w (cblk_of_net c) = nl c).
+  { unfold last_of. rewrite FT. rewrite (nl_eq c Wc'). reflexivity. }
+  assert (FE: first_of w (cblk_of_net addr) = nf addr).
+  { unfold first_of, cblk_of_net; cbn [fst snd]. rewrite (nf_eq addr Wad), Ew. reflexivity. }
+  assert (LE: last_of w (cblk_of_net addr) = nl addr).
+  { unfold last_of. rewrite FE. rewrite (nl_eq addr Wad), Ew. reflexivity. }
+  destruct (exclude_spec w (cblk_of_net c) (cblk_of_net addr) Hw WT WE) as (l & El & Cl & Covl).
+  rewrite FT, LT, FE, LE in Covl.
+  rewrite El. cbn [bind].
+  destruct (b_ddel_spec d1 c Wc W1 Ic) as (d2 & E2 & W2 & M2). rewrite E2. cbn [bind].
+  destruct (blks_nets w (nver c) l Hvc eq_refl Cl) as (FR & PR & SR & DR).
+  { intros x Hx. apply Covl in Hx. unfold nw in Hic. fold w in Hic. lia. }
+  set (R := map (net_of_cblk (nver c)) l) in *.
+  destruct (b_fold_dset_spec R d2 FR W2) as (W3 & M3).
+  exists (fold_left dset R d2). split; [reflexivity|].
+  pose proof FR as FR'. rewrite Forall_forall in FR'.
+  assert (DR': forall ver x, den R ver x <-> ver = nver c /\ nf c <= x <= nl c /\ ~ (nf addr <= x <= nl addr)).
+  { intros ver x. rewrite DR, Covl. tauto. }
+  assert (Rin: forall r, In r R -> nver r = nver c /\ nf c <= nf r /\ nl r <= nl c /\ r <> c /\
+                 forall y, In y d1 -> y <> c -> ~ overlap r y).
+  { intros r Hr. pose proof (FR' r Hr) as Wr. destruct (wfh_view r Wr) as (_ & _ & PSr & _ & _ & Lr & _).
+    assert (X1: den R (nver r) (nf r)) by (exists r; split; [exact Hr|apply in_net_first, Wr]).
+    assert (X2: den R (nver r) (nl r)) by (exists r; split; [exact Hr|unfold in_net; split; [reflexivity|lia]]).
+    apply DR' in X1. apply DR' in X2. split; [tauto|]. split; [lia|]. split; [lia|]. split.
+    - intros ->. assert (X3: den R (nver c) (nf addr)).
+      { exists c. split; [exact Hr|]. unfold in_net. split; [reflexivity|lia]. }
+      apply DR' in X3. lia.
+    - intros y Hy Ny (ver & z & Iz1 & Iz2). apply (P1 c y Ic Hy); [congruence|].
+      assert (X3: den R ver z) by (exists r; tauto). apply DR' in X3.
+      exists ver, z. split; [|exact Iz2]. unfold in_net. split; [symmetry; tauto|lia]. }
+  assert (Inv3: SetInv' (fold_left dset R d2)).
+  { split; [exact W3|split].
+    - intros x y Hx Hy Nxy Ov. apply M3 in Hx. apply M3 in Hy.
+      destruct Hx as [Hx|Hx], Hy as [Hy|Hy].
+      + apply M2 in Hx. apply M2 in Hy. apply (P1 x y); tauto.
+      + apply M2 in Hx. destruct (Rin y Hy) as (_ & _ & _ & _ & Q). apply (Q x); try tauto. apply overlap_sym. exact Ov.
+      + apply M2 in Hy. destruct (Rin x Hx) as (_ & _ & _ & _ & Q). apply (Q y); tauto.
+      + apply (PR x y Hx Hy Nxy Ov).
+    - assert (Mixed: forall r y, In r R -> In y d1 -> y <> c -> siblings r y \/ siblings y r -> False).
+      { intros r y Hr Hy Ny Sb. destruct (Rin r Hr) as (Q1 & Q2 & Q3 & Q4 & _).
+        apply (P1 y c Hy Ic Ny). apply (sib_inside r y c); try assumption.
+        - apply FR', Hr. - apply F1, Hy. - now symmetry.
+        - apply strict_super_plen; try assumption; [apply FR', Hr|now symmetry|congruence]. }
+      intros x y Hx Hy Sxy. apply M3 in Hx. apply M3 in Hy.
+      destruct Hx as [Hx|Hx], Hy as [Hy|Hy].
+      + apply M2 in Hx. apply M2 in Hy. apply (S1 x y); tauto.
+      + apply M2 in Hx. apply (Mixed y x); tauto.
+      + apply M2 in Hy. apply (Mixed x y); tauto.
+      + apply (SR x y Hx Hy Sxy). }
+  split; [apply b_SetInv_iff; exact Inv3|].
+  intros ver x.
+  assert (Dsplit: den (fold_left dset R d2) ver x <-> (exists n, In n d1 /\ n <> c /\ in_net n ver x) \/ den R ver x).
+  { unfold den. split.
+    - intros (n & Hn & In_). apply M3 in Hn. destruct Hn as [Hn|Hn]; [left|right; eauto].
+      apply M2 in Hn. exists n. tauto.
+    - intros [(n & Hn & Nn & In_)|(n & Hn & In_)]; exists n; (split; [apply M3|exact In_]); [left; apply M2; tauto|now right]. }
+  rewrite Dsplit, DR'. clear Dsplit.
+  assert (Dadd: den d1 ver x <-> den d ver x \/ in_net addr ver x).
+  { rewrite D1. rewrite (in_net_ncidr addr ver x Wad). tauto. }
+  assert (Cin: in_net addr ver x -> in_net c ver x) by (unfold in_net; intros (E & Ix); split; [congruence|lia]).
+  split.
+  - intros [(n & Hn & Nn & In_)|(Ev' & Ix & Nx)].
+    + assert (Nad: ~ in_net addr ver x).
+      { intros Iad. apply (P1 n c Hn Ic Nn). exists ver, x. split; [exact In_|apply Cin, Iad]. }
+      split; [|exact Nad]. assert (X: den d1 ver x) by (exists n; tauto). apply Dadd in X. tauto.
+    + assert (Nad: ~ in_net addr ver x) by (unfold in_net; intros (_ & Iad); lia).
+      split; [|exact Nad]. assert (X: den d1 ver x).
+      { exists c. split; [exact Ic|]. unfold in_net. split; [now symmetry|lia]. }
+      apply Dadd in X. tauto.
+  - intros (Dx & Nad). assert (X: den d1 ver x) by (apply Dadd; now left).
+    destruct X as (n & Hn & In_). destruct (net_eq_dec n c) as [->|Nn]; [right|left; exists n; tauto].
+    destruct In_ as (E & Ix). split; [now symmetry|]. split; [lia|]. intros Iad. apply Nad.
+    unfold in_net. split; [congruence|lia].
+Qed.
